@@ -278,9 +278,11 @@ class VQueue:
             self._s.block(lambda: self.unfinished == 0, None, 'queue.join')
 
     def empty(self):
+        self._s.point('queue.empty')         # a real queue.Queue takes its mutex here: the answer may be stale by the next step
         return not self.items
 
     def qsize(self):
+        self._s.point('queue.qsize')
         return len(self.items)
 
 
